@@ -19,7 +19,7 @@ ELEMS = [("0", "0", 0), ("1", "1", 1), ("127", "127", 127), ("128", "128", 128),
          ("65535", "65535", 65535), ("-1", "-1", -1), ("-128", "-128", -128), ("-129", "-129", -129), ("-32768", "-32768", -32768),
          ("$7F", "$7F", 0x7F), ("$0A", "$0A", 10), ("$1234", "$1234", 0x1234), ("%bin8", "%10000001", 0x81), ("'A", "'A", 65),
          ("equ", "EQ5", 5), ("label", "LB", 0x3000)]
-DELIMS = ['"', "/", "'", "!", ":", ".", "#", "?", "(", "&", "^", "="]
+DELIMS = [chr(c) for c in range(33, 127)]          # every printable non-blank character may delimit a string
 STR_ALPHA = ["A", " ", ";", ",", '"', "/", "#", "z", "0", "'"]
 
 
@@ -46,13 +46,13 @@ def cases(tier, seed):
     maxlen = 4 if thorough else 3
     for delim in DELIMS:
         alpha = [c for c in STR_ALPHA if c != delim]
-        dl = DELIMS if thorough else ['"', "/", "'"]
+        dl = (['"', "/", "'", "!", ":", ".", "#", "?", "(", "&", "^", "="] + list(";\\`{|}~")) if thorough else ['"', "/", "'"]
         if delim in dl:
             for n in range(0, maxlen + 1):
                 for tup in itertools.product(alpha, repeat=n):
                     yield {"d": "FCC", "delim": delim, "s": "".join(tup), "comment": False}
         else:
-            for s in ("", "A", "A B", "A;B", "HELLO WORLD", "  ", " A ", "a,b"):
+            for s in ("", "A", "A B", "A;B", "HELLO WORLD", "  ", " A ", "a,b", "x", "1 2"):
                 if delim not in s:
                     yield {"d": "FCC", "delim": delim, "s": s, "comment": False}
     for delim in ('"', "/"):
